@@ -287,7 +287,7 @@ def py_binop(op, a, b):
             raise OutOfReach("list repetition by symbolic count")
         return a * cn
     if op == "%" and is_str(a):
-        raise OutOfReach("printf-style formatting of symbolic values")
+        return _printf(a, b)
     if (is_seq(a) or is_seq(b) or a is None or b is None or isinstance(a, (list, tuple, dict)) or
             isinstance(b, (list, tuple, dict))):
         raise TypeError(f"unsupported operand type(s) for {op}: '{type_name(a)}' and '{type_name(b)}'")
@@ -497,6 +497,64 @@ def py_getitem(obj, key):
     if isinstance(obj, (int, SInt, SBool, float)):
         raise TypeError(f"'{type_name(obj)}' object is not subscriptable")
     return NotImplemented
+
+
+def _printf(fmt, args):
+    """'...%d...%s...' % args with symbolic arguments: only the plain conversions %d %i %s %r (no flags / width) and %%"""
+    if is_sym(fmt):
+        raise OutOfReach("printf-style formatting with a symbolic template")
+    if not isinstance(args, tuple):
+        args = (args,)
+    out, i, k = "", 0, 0
+
+    def cat(x, y):
+        if not is_sym(x) and not is_sym(y):
+            return x + y
+        return rope_concat(to_rope(x) if not isinstance(x, Rope) else x, to_rope(y) if not isinstance(y, Rope) else y)
+    while i < len(fmt):
+        ch = fmt[i]
+        if ch != "%":
+            out = cat(out, ch)
+            i += 1
+            continue
+        if i + 1 >= len(fmt):
+            raise ValueError("incomplete format")
+        conv = fmt[i + 1]
+        i += 2
+        if conv == "%":
+            out = cat(out, "%")
+            continue
+        if conv not in "disr":
+            raise OutOfReach(f"printf-style conversion %{conv} on symbolic values")
+        if k >= len(args):
+            raise TypeError("not enough arguments for format string")
+        v = args[k]
+        k += 1
+        if isinstance(v, (SInt,)) :
+            t = T(v)
+            if ctx().branch(t >= 0):
+                piece = mk_rope("str", [BN(t)])
+            else:
+                piece = rope_concat(to_rope("-"), mk_rope("str", [BN(simp(-t))]))
+        elif isinstance(v, SBool):
+            if conv in "di":
+                piece = "1" if ctx().branch(v.t) else "0"
+            else:
+                piece = "True" if ctx().branch(v.t) else "False"
+        elif isinstance(v, Rope):
+            if conv in "di":
+                raise TypeError("%d format: a real number is required, not " + type_name(v))
+            if conv == "r" or v.kind != "str":
+                raise OutOfReach("repr of a symbolic string in printf-style formatting")
+            piece = v
+        elif is_sym(v) or not isinstance(v, (int, str, float, bytes, type(None))):
+            raise OutOfReach("printf-style formatting of " + type_name(v))
+        else:
+            piece = ("%" + conv) % (v,)
+        out = cat(out, piece)
+    if k != len(args):
+        raise TypeError("not all arguments converted during string formatting")
+    return out
 
 
 def py_iter_list(v):
